@@ -179,6 +179,8 @@ def run(ctx):
             f'bqm_close (rel {qlit(fr(sc))}) (getD (bq {qlit(E)}%Q) (bq {qlit(nu)}%Q) {dict(strain=0, stress=1)[mode] if mode != "3d" else 2}) {qmat(D)}%Q')
 
     # ---------------- (b) element matrices
+    elem_obs = []
+
     def elem_case(kind, dim, hs, **kw):
         hf = [float(h) for h in hs]
         d = pym.DomainDefinition(2, 1, 0 if dim == 2 else 1, *hf)
@@ -197,6 +199,7 @@ def run(ctx):
             Ke = m.poisson_element
             model = f'Kpo {dim}%nat {hq} {qlit(fr(kw["mp"]))}%Q'
         sc = max(1e-300, float(np.abs(Ke).max()))
+        elem_obs.append(dict(kind=kind, dim=dim, sizes=hf, kw=dict(kw), Ke=np.array(Ke, dtype=float)))
         ctx.count(f'elem {kind} dim{dim}')
         add(('elem', kind, dim, tuple(hf), tuple(sorted(kw.items()))),
             f'elem_ok (rel {qlit(fr(sc))}) ({model}) {qmat(Ke)}%Q')
@@ -206,7 +209,7 @@ def run(ctx):
         nu = rngl.choice((0.3, 0.0, 0.25, rngl.uniform(-0.8, 0.45)))
         return E, nu
 
-    n2, n3 = (24, 6) if quick else (200, 40)
+    n2, n3 = (20, 4) if quick else (200, 40)
     for t in range(n2):
         hs = rand_sizes(rng, t % 2 == 0)
         E, nu = rand_mat(rng)
@@ -243,7 +246,7 @@ def run(ctx):
         cases.append(dict(kind='general', grid=[a, b, c], sizes=[1.0, 1.0, 1.0], elmat=Ke.tolist(), x=x, bc=bc, bcdiagval=bcd,
                           const=[[r, cc, float(v)] for r, cc, v in Ct], const_fmt=(None if C is None else C.format), matrix_type=mt, exact=True))
     # ---------------- (d) full pipeline
-    nfull = 36 if quick else 240
+    nfull = 30 if quick else 240
     for t in range(nfull):
         kind = rng.choice(('stiffness', 'stiffness', 'mass', 'poisson'))
         big = t % 6 == 0
@@ -299,8 +302,18 @@ def run(ctx):
     for c in cases:
         build_case(ctx, pym, sp, c, add)
 
-    # big correspondence shards compile in parallel
-    failing, err = vlib.run_cases(ctx, 'asm', HEADER, checks, chunk=14 if quick else 20, timeout=1500)
+    # balance the shards: heavy cases (3-D stiffness in Q(sqrt 3)) are dealt round-robin
+    def cost(e):
+        return (12 if 'Kst 3%nat' in e else 1.5 if ('Kst 2%nat' in e or 'Kpo 3%nat' in e or 'Kms 3%nat' in e) else 0.2) + len(e) / 30000.0
+    chunk = 12 if quick else 20
+    nsh = max(1, -(-len(checks) // chunk))
+    order = sorted(range(len(checks)), key=lambda i: -cost(checks[i]))
+    perm = [i for k in range(nsh) for i in order[k::nsh]]
+    checks = [checks[i] for i in perm]
+    labels = [labels[i] for i in perm]
+    replay = [replay[i] for i in perm]
+    chunk = max(len(order[k::nsh]) for k in range(nsh))
+    failing, err = vlib.run_cases(ctx, 'asm', HEADER, checks, chunk=chunk, timeout=1500)
     ctx.obligation('correspondence:case files evaluated', 'correspondence', not err, err)
     if err:
         ctx.violation('correspondence', 'AssembleGeneral', 'case files compile', 'harness', dict(error=err[-3000:]), theorem='cases_asm')
@@ -309,7 +322,7 @@ def run(ctx):
         ctx.violation('correspondence', call_site_of(lab), 'model == implementation', str(lab[0]),
                       dict(label=str(lab)[:1500], case=replay[idx], coq_check=checks[idx][:3000]),
                       note='Coq model and implementation differ')
-    oracle(ctx, pym, sp, cases, thorough=(not quick) or bool(failing))
+    oracle(ctx, pym, sp, cases, elem_obs, thorough=(not quick) or bool(failing))
 
 
 def call_site_of(lab):
@@ -463,8 +476,71 @@ def rigid_modes(d, dim):
     return modes
 
 
-def oracle(ctx, pym, sp, cases, thorough=False):
+def ref_element(kind, dim, sizes, kw):
+    """independent statement of the element matrices: exact integrals of B^T D B, rho N^T N, k gradN^T gradN over the
+    element (3-point Gauss-Legendre, exact for these polynomials), thickness sizes[2] included in 2-D"""
+    h = np.array(sizes[:dim], dtype=float)
+    V = float(np.prod(h))
+    t = float(sizes[2]) if dim == 2 else 1.0
+    nn = [(-1, -1, -1), (1, -1, -1), (-1, 1, -1), (1, 1, -1), (-1, -1, 1), (1, -1, 1), (-1, 1, 1), (1, 1, 1)][:2 ** dim]
+    xi, wi = np.polynomial.legendre.leggauss(3)
+    en = 2 ** dim
+    if kind == 'stiffness':
+        E, nu = kw['E'], kw['nu']
+        if dim == 3:
+            c = E / ((1 + nu) * (1 - 2 * nu))
+            D = np.zeros((6, 6))
+            D[:3, :3] = c * nu
+            D[np.arange(3), np.arange(3)] = c * (1 - nu)
+            D[np.arange(3, 6), np.arange(3, 6)] = c * (1 - 2 * nu) / 2
+        elif MODES[kw['plane']] == 0:
+            c = E / ((1 + nu) * (1 - 2 * nu))
+            D = c * np.array([[1 - nu, nu, 0], [nu, 1 - nu, 0], [0, 0, (1 - 2 * nu) / 2]])
+        else:
+            D = E / (1 - nu ** 2) * np.array([[1, nu, 0], [nu, 1, 0], [0, 0, (1 - nu) / 2]])
+        out = np.zeros((en * dim, en * dim))
+    elif kind == 'mass':
+        nd = kw['ndof']
+        out = np.zeros((en * nd, en * nd))
+    else:
+        out = np.zeros((en, en))
+    import itertools
+    for idx in itertools.product(range(3), repeat=dim):
+        p = np.array([xi[i] * h[k] / 2 for k, i in enumerate(idx)])
+        w = float(np.prod([wi[i] * h[k] / 2 for k, i in enumerate(idx)]))
+        fac = np.array([[h[k] / 2 + n[k] * p[k] for k in range(dim)] for n in nn])      # (en, dim)
+        N = fac.prod(axis=1) / V
+        dN = np.array([[n[k] * np.prod([fac[a, j] for j in range(dim) if j != k]) / V for a, n in enumerate(nn)] for k in range(dim)])
+        if kind == 'stiffness':
+            B = np.zeros((3 if dim == 2 else 6, en * dim))
+            for a in range(en):
+                if dim == 2:
+                    B[0, 2 * a], B[1, 2 * a + 1], B[2, 2 * a], B[2, 2 * a + 1] = dN[0, a], dN[1, a], dN[1, a], dN[0, a]
+                else:
+                    B[0, 3 * a], B[1, 3 * a + 1], B[2, 3 * a + 2] = dN[0, a], dN[1, a], dN[2, a]
+                    B[3, 3 * a + 1], B[3, 3 * a + 2] = dN[2, a], dN[1, a]      # gamma_yz
+                    B[4, 3 * a], B[4, 3 * a + 2] = dN[2, a], dN[0, a]          # gamma_zx
+                    B[5, 3 * a], B[5, 3 * a + 1] = dN[1, a], dN[0, a]          # gamma_xy
+            out += w * t * B.T @ D @ B
+        elif kind == 'mass':
+            Nm = np.kron(N[None, :], np.eye(kw['ndof']))
+            out += w * t * kw['mp'] * Nm.T @ Nm
+        else:
+            out += w * t * kw['mp'] * dN.T @ dN
+    return out
+
+
+def oracle(ctx, pym, sp, cases, elem_obs=(), thorough=False):
     """the property stated in numpy, evaluated on the implementation"""
+    for eo in elem_obs:
+        ctx.search_evaluations += 1
+        ref = ref_element(eo['kind'], eo['dim'], eo['sizes'], eo['kw'])
+        sc = max(1e-300, float(np.abs(ref).max()))
+        if ref.shape != eo['Ke'].shape or np.abs(ref - eo['Ke']).max() > 1e-9 * sc:
+            site = {'stiffness': 'AssembleStiffness._prepare', 'mass': 'AssembleMass._prepare', 'poisson': 'AssemblePoisson._prepare'}[eo['kind']]
+            ctx.violation('impl-violates', site, 'element matrix equals the exact element integral', f'dim{eo["dim"]}',
+                          dict(kind=eo['kind'], dim=eo['dim'], sizes=eo['sizes'], kw=eo['kw']),
+                          expected=ref.tolist(), got=eo['Ke'].tolist())
     for c in cases:
         if c.get('_A') is None:
             continue
@@ -516,6 +592,9 @@ def oracle(ctx, pym, sp, cases, thorough=False):
             continue
         # ---- physics, on the unconstrained matrix without constant (computed from the element matrix the module exposes)
         ksc = max(1e-300, float(np.abs(Ke).max()))
+        refK = ref_element(kind, dim, c['sizes'], c['kw'])
+        if refK.shape != Ke.shape or np.abs(refK - Ke).max() > 1e-9 * max(1e-300, float(np.abs(refK).max())):
+            bad('element matrix equals the exact element integral', None, float(np.abs(refK - Ke).max()) if refK.shape == Ke.shape else list(Ke.shape))
         if np.abs(Ke - Ke.T).max() > 1e-9 * ksc:
             bad('element matrix symmetric', 0.0, float(np.abs(Ke - Ke.T).max()))
         if bc is None and not c.get('const'):
